@@ -125,7 +125,7 @@ PROPS = {
     "C09": dict(
         lean_modules=["PalomaModel.Props.C09"], gen=["Panics.lean"],
         harness_test="TestC09",
-        n_quick=6, n_thorough=6, thorough_seeds=4, timeout_quick=900, timeout_thorough=5000, env_thorough={"VERIF_BLOCKS": "10100"},
+        n_quick=8, n_thorough=8, thorough_seeds=4, timeout_quick=900, timeout_thorough=5000, env_thorough={"VERIF_BLOCKS": "10100"},
         spec_ops=["block"],
         level_text="PARTIAL. Lean 4 theorems: the fee arithmetic on the end-block path is total with explicit error outcomes for every multiplicator (missing, negative, astronomically large) and estimate, and — by decide over the inventory "
                    "regenerated from the typed source on every run (call-graph reachability from every module's Begin/EndBlock, stopping at functions that install a recover) — every explicit panic, Must* call, narrowing sdkmath conversion, sdkmath division, "
@@ -163,7 +163,8 @@ PROPS = {
         lean_modules=["PalomaModel.Props.C07"],
         harness_test="TestC07",
         n_quick=300, n_thorough=3000, thorough_seeds=6, timeout_quick=900,
-        spec_ops=[],
+        # the attestation verdict and the success effects printed by the driver are the property's own subject
+        spec_ops=["attest"],
         rule="keeper layer on the full app with an active EVM chain: messages of every action type put in the queue, estimate election, real validator signatures, the real expected call data (compass ABI) wrapped in a real ethtypes.Transaction + receipt, "
              "evidence from a quorum through CheckAndProcessAttestedMessages (one scenario through real MsgAddEvidence txs and the real end blocker); corruptions: single/multi-field edits of the call data, wrong signature-prefix length, failed receipt, "
              "re-submission of a used tx, evidence before estimate election; distinct = distinct op text; non-trivial = an attestation attempt reached the action attester",
@@ -211,6 +212,17 @@ PROPS = {
              "so that about half of the addresses contain 0x2c; histories of keep-alives (good / old / invalid versions), block advancement over sweep heights incl. real 2000-block expiries, jail / unjail / bond / unbond, stake distributions with whales and exact-quarter stakes, "
              "minimum-version changes through real governance; distinct = distinct op text; non-trivial = at least one sweep ran",
         trusted_base=[SDK_TRUST, "the float64 share test equals 4*p > total for totals below 2^53 (powers are kept below 2^50, exact boundary included)", "semver.Compare is modelled by an order-preserving key, validated against the real function"],
+        assumptions=[],
+    ),
+    "C17": dict(
+        lean_modules=["PalomaModel.Props.C17"],
+        harness_test="TestC17",
+        n_quick=300, n_thorough=3000, thorough_seeds=6, timeout_quick=900,
+        spec_ops=[],
+        rule="full application with three chains (active with MEV, supported-but-idle, active) plus unregistered targets: create / execute requests as signed txs through ante + router, through the real wasm bindings (create_job, execute_job, legacy fallback) "
+             "and through SchedulerKeeper.ExecuteJob with arbitrary sender / contract bytes (nil, empty, 20, 32, 33 bytes); modifiable and fixed jobs, duplicate ids, supplied payload absent / empty / malformed / bytes, relayer outage (fee records removed), "
+             "new snapshots with the MEV trait toggled, explicit end-blocks; observed: job store digest and the NEW messages in each chain's turnstone queue; distinct = distinct op text; non-trivial = at least one successful execution",
+        trusted_base=[SDK_TRUST, "relayer selection success is an input of the model (C14 proves which validator is picked)"],
         assumptions=[],
     ),
 }
